@@ -43,6 +43,11 @@ func HandleCommonErrors(w http.ResponseWriter, r *http.Request, err error) {
 		api.BadRequest(w, ErrSchemaNotSpecified, err)
 	case errors.Is(err, ledgercontroller.ErrSchemaNotFound{}):
 		api.NotFound(w, err)
+	case errors.Is(err, storagecommon.ErrInvalidQuery{}) ||
+		errors.Is(err, ledger.ErrMissingFeature{}) ||
+		errors.Is(err, storagecommon.ErrNotPaginatedField{}):
+		// client-side invalid queries must never surface as a 500, whichever handler they come through
+		api.BadRequest(w, ErrValidation, err)
 	default:
 		InternalServerError(w, r, err)
 	}
